@@ -92,6 +92,8 @@ func checkC19(r *Run) propMeta {
 		checkCursorBeforeCommit(r, p, fd)
 	}
 	checkPersistLast(r, p, decls)
+	checkReaderOptionsConsumedOnce(r, p)
+	checkPersistCallbackContract(r, p)
 	if dg := decls["dumpGraph"]; dg != nil {
 		checkCommitCallbacks(r, p, dg)
 	} else {
